@@ -58,6 +58,13 @@ Proof.
   unfold L, build, setLatPar; cbv zeta; lat_simpl. clear L.
   abstract_cell HC al be ga.
   pose proof (detG_pos a b c ca cb cg V Pa Pb Pc PV HV) as DG.
+  (* bring the metric tensor to one spelling, whatever order of factors the source uses *)
+  repeat match goal with |- context [minv (M ?x1 ?x2 ?x3 ?x4 ?x5 ?x6 ?x7 ?x8 ?x9)] =>
+    lazymatch constr:(M x1 x2 x3 x4 x5 x6 x7 x8 x9) with
+    | M (a * a) (a * b * cg) (a * c * cb) (b * a * cg) (b * b) (b * c * ca) (c * a * cb) (c * b * ca) (c * c) => fail
+    | _ => replace (M x1 x2 x3 x4 x5 x6 x7 x8 x9)
+             with (M (a * a) (a * b * cg) (a * c * cb) (b * a * cg) (b * b) (b * c * ca) (c * a * cb) (c * b * ca) (c * c)) by (f_equal; ring)
+    end end.
   assert (L1 : sqrt (a11 (minv (M (a * a) (a * b * cg) (a * c * cb) (b * a * cg) (b * b) (b * c * ca) (c * a * cb) (c * b * ca) (c * c)))) = sa / (a * V)).
   { apply sqrt_of_sq; [apply Rdiv_lt_0_compat; [lra | apply Rmult_lt_0_compat; lra]|].
     rm_simpl. field_simplify_eq; [sqs; ring | repeat split; lra]. }
